@@ -3,6 +3,17 @@
    tag verif). Do not edit: models and theorems are stated over these names. *)
 From VR Require Import Lib.Bytes.
 Open Scope N_scope.
+Definition c17_supported_encodings : list bytes := Eval compute in [(hx "7a737464"); (hx "677a6970")].
+Definition c17_identity : bytes := Eval compute in (hx "6964656e74697479"). (* "identity" *)
+Definition c17_default_level : Z := 1%Z.
+Definition c17_advert_default : bytes := Eval compute in (hx "7a7374642c20677a6970"). (* "zstd, gzip" *)
+Definition c17_advert_disabled : bytes := Eval compute in []. (* "" *)
+Definition c17_arrow_content_type : bytes := Eval compute in (hx "6170706c69636174696f6e2f766e642e6170616368652e6172726f772e73747265616d"). (* "application/vnd.apache.arrow.stream" *)
+Definition c17_h_accept : bytes := Eval compute in (hx "4163636570742d456e636f64696e67"). (* "Accept-Encoding" *)
+Definition c17_h_custom_accept : bytes := Eval compute in (hx "582d5647492d4163636570742d456e636f64696e67"). (* "X-VGI-Accept-Encoding" *)
+Definition c17_h_content_encoding : bytes := Eval compute in (hx "436f6e74656e742d456e636f64696e67"). (* "Content-Encoding" *)
+Definition c17_h_custom_content_encoding : bytes := Eval compute in (hx "582d5647492d436f6e74656e742d456e636f64696e67"). (* "X-VGI-Content-Encoding" *)
+Definition c17_h_supported_encodings : bytes := Eval compute in (hx "5647492d537570706f727465642d456e636f64696e6773"). (* "VGI-Supported-Encodings" *)
 Definition www_scheme_prefix : bytes := Eval compute in (hx "42656172657220"). (* "Bearer " *)
 Definition p_resource_metadata : bytes := Eval compute in (hx "7265736f757263655f6d65746164617461"). (* "resource_metadata" *)
 Definition p_client_id : bytes := Eval compute in (hx "636c69656e745f6964"). (* "client_id" *)
